@@ -105,31 +105,39 @@ def check(repo: Repo, rep: Report) -> None:
     rep.ob("R1-recursive", grw, "wrapper built by _clone(scheduler)", ok, "the recursive wrapper is not a CatchScheduler clone over the inner scheduler")
     # periodic
     per = repo.fn(C, "CatchScheduler.schedule_periodic.periodic")
+    sp = repo.fn(C, "CatchScheduler.schedule_periodic")
     handler_analysis(rep, per, "._handler", "periodic tick")
+    # roles: the failed latch is the schedule_periodic local initialised False that the tick sets True; the periodic
+    # subscription is the SingleAssignmentDisposable local that schedule_periodic returns
+    from ..rules import locals_by_init, names_assigned_const
+    latches = [f_ for f_ in locals_by_init(sp, lambda v: isinstance(v, ast.Constant) and v.value is False) if f_ in names_assigned_const(per, True)]
+    failed = latches[0] if len(latches) == 1 else "?failed-latch"
+    disps = [d for d in locals_by_init(sp, lambda v: isinstance(v, ast.Call) and call_name(v) in ("SingleAssignmentDisposable", "SerialDisposable", "MultipleAssignmentDisposable"))
+             if any(isinstance(s.node, ast.Return) and u(s.node.value) == d for s in sites(sp))]
+    disp = disps[0] if len(disps) == 1 else "?periodic-subscription"
     acts = [s for s in sites(per) if isinstance(s.node, ast.Call) and isinstance(s.node.func, ast.Name) and s.node.func.id == "action"]
-    ok = len(acts) == 1 and has_guard(acts[0].ctx, "failed", False) and [u(a) for a in acts[0].node.args] == [per.params[0]]
+    ok = len(acts) == 1 and has_guard(acts[0].ctx, failed, False) and [u(a) for a in acts[0].node.args] == [per.params[0]]
     rep.ob("P1-periodic", per, "action(state) dominated by `not failed`", ok,
            "a periodic tick runs the action after a previous tick failed (or with a different state)")
     hs = [h for s in sites(per) if isinstance(s.node, ast.Try) for h in s.node.handlers]
     ok = False
     disp_ok = False
     for h in hs:
-        sets = [n for n in h.body if isinstance(n, ast.Assign) and u(n.targets[0]) == "failed" and u(n.value) == "True"]
+        sets = [n for n in h.body if isinstance(n, ast.Assign) and u(n.targets[0]) == failed and u(n.value) == "True"]
         first_call = next((i for i, n in enumerate(h.body) if any(isinstance(x, ast.Call) and (dotted(x.func) or "").endswith("._handler") for x in ast.walk(n))), None)
         if sets and first_call is not None and h.body.index(sets[0]) < first_call:
             ok = True
-        disp_ok = any(isinstance(x, ast.Call) and dotted(x.func) == "disp.dispose" for x in ast.walk(h))
+        disp_ok = any(isinstance(x, ast.Call) and dotted(x.func) == f"{disp}.dispose" for x in ast.walk(h))
     rep.ob("P1-periodic", per, "failed = True before the handler is consulted", ok,
            "the failed latch is not set before the handler runs: if the handler raises or swallows, later ticks still run the action")
     rep.ob("P1-periodic", per, "swallow path disposes the periodic subscription", disp_ok,
            "after a handled exception the periodic work is not stopped")
-    sp = repo.fn(C, "CatchScheduler.schedule_periodic")
     inner_names = {"self._scheduler"} | {u(s.node.targets[0]) for s in sites(sp) if isinstance(s.node, ast.Assign) and "self._scheduler" in u(s.node.value)
                                          and isinstance(s.node.targets[0], ast.Name)}
     calls = [s for s in sites(sp) if isinstance(s.node, ast.Call) and isinstance(s.node.func, ast.Attribute) and s.node.func.attr == "schedule_periodic"
              and dotted(s.node.func.value) in inner_names]
     ok = len(calls) == 1 and [u(a) for a in calls[0].node.args] == [sp.params[1], "periodic"] and \
         {k.arg: u(k.value) for k in calls[0].node.keywords}.get("state") == "state" and \
-        isinstance(calls[0].stmt, ast.Assign) and u(calls[0].stmt.targets[0]) == "disp.disposable"
+        isinstance(calls[0].stmt, ast.Assign) and u(calls[0].stmt.targets[0]) == f"{disp}.disposable"
     rep.ob("P1-periodic", sp, "disp.disposable = inner.schedule_periodic(period, periodic, state=state)", ok,
            "the guarded tick function (or period / state) is not what is scheduled periodically, or its subscription is not held")
